@@ -37,7 +37,7 @@ def raw_reactions():
         for name in ("complex", "patent", "typical"):
             with open(os.path.join(base, "Jaworski/%s.csv" % name)) as f:
                 for i, r in enumerate(csv.DictReader(f)):
-                    out.append(("%s_%d" % (name, i), r["reactions"]))
+                    out.append(("%s_%d" % (name, i), r.get("reaction") or r.get("reactions")))
         _cache["raw"] = out
     return _cache["raw"]
 
